@@ -72,21 +72,22 @@ AcksOK(in, out) ==
   /\ Len(out.acks) = Len(in.rounds)
   /\ \A i \in 1..Len(out.acks) : Range(out.acks[i]) \subseteq Range(in.rounds[i].h) \cap KnownC(in)
 
-Closed(A, in, out) ==
-  \A w \in WantsOf(in.rounds) \cap KnownC(in) : A[w] \subseteq Sent(out) \cup Have(A, out)
+(* In the clauses below  W = the wants of all rounds, S = Sent(out),       *)
+(* H = Have(A, out), D = DistMap(in.g, W); they are passed in so that TLC  *)
+(* computes them once per output.                                          *)
+Closed(A, in, W, S, H) == \A w \in W \cap KnownC(in) : A[w] \subseteq S \cup H
 
 (* every entry: each parent is common or appears earlier in the list.      *)
 (* (Lemma used by the recorders, which log first occurrences only: the     *)
 (* clause holds for a list iff it holds for the list of first occurrences, *)
 (* because the first occurrence of a commit is the one with the fewest     *)
-(* predecessors.  DesignOK checks the lemma on the lists of Part 3.)       *)
-ParentFirst(A, in, out) ==
-  \A i \in 1..Len(out.list) :
-    out.list[i] \in KnownC(in) =>
-      \A p \in Par(in.g, out.list[i]) :
-        p \in Have(A, out) \/ \E j \in 1..(i - 1) : out.list[j] = p
+(* predecessors.)                                                          *)
+ParentFirst(in, list, H) ==
+  \A i \in 1..Len(list) :
+    list[i] \in KnownC(in) =>
+      \A p \in Par(in.g, list[i]) : p \in H \/ \E j \in 1..(i - 1) : list[j] = p
 
-NoExtra(A, in, out) == Sent(out) \subseteq AncOf(A, WantsOf(in.rounds))
+NoExtra(A, W, S) == S \subseteq AncOf(A, W)
 
 (* Dist[c]: length of the shortest parent path from some want to c;        *)
 (* N+1 = not an ancestor of any want.  Children have larger numbers than   *)
@@ -113,52 +114,67 @@ InDepth(D, depth, c) == depth = 0 \/ D[c] < depth
 (* sender walks - so for those either choice is accepted; for every other  *)
 (* listed commit all parent paths from the wants avoid the commons and the *)
 (* selection is fixed.                                                     *)
-TablesUpper(A, in, out) ==
-  LET D == DistMap(in.g, WantsOf(in.rounds)) IN
-  out.tabs \subseteq {c \in Sent(out) \cap KnownC(in) : InDepth(D, in.depth, c)}
-TablesLower(A, in, out) ==
-  LET D == DistMap(in.g, WantsOf(in.rounds)) IN
-  {c \in (Sent(out) \cap KnownC(in)) \ Have(A, out) : InDepth(D, in.depth, c)} \subseteq out.tabs
-TablesOK(A, in, out) == TablesUpper(A, in, out) /\ TablesLower(A, in, out)
+TablesUpper(in, tabs, S, D) ==
+  tabs \subseteq {c \in S \cap KnownC(in) : InDepth(D, in.depth, c)}
+TablesMissing(in, tabs, S, H, D) ==
+  {c \in (S \cap KnownC(in)) \ H : InDepth(D, in.depth, c)} \ tabs
+TablesOK(in, tabs, S, H, D) == TablesUpper(in, tabs, S, D) /\ TablesMissing(in, tabs, S, H, D) = {}
 
 (* "terminates in time polynomial in the history size", decided as a bound *)
 (* on the object-store reads of the whole negotiation                      *)
 Poly(n)         == 8 * n * n + 64 * n
 WorkOK(in, out) == out.gets <= Poly(N(in))
 
-ResultOK(A, in, out) ==
-  /\ AcksOK(in, out) /\ Closed(A, in, out) /\ ParentFirst(A, in, out)
-  /\ NoExtra(A, in, out) /\ TablesOK(A, in, out)
+(* A = AncMap(in.g) and D = DistMap(in.g, wants) are passed in: they are   *)
+(* the same for every negotiation over one history and one want set        *)
+ResultOK(A, D, in, out) ==
+  LET W == WantsOf(in.rounds)
+      S == Sent(out)
+      H == Have(A, out)
+  IN /\ AcksOK(in, out) /\ Closed(A, in, W, S, H) /\ ParentFirst(in, out.list, H)
+     /\ NoExtra(A, W, S) /\ TablesOK(in, out.tabs, S, H, D)
 
-ContractOK(A, in, out) ==
+ContractOKWith(A, D, in, out) ==
   /\ WorkOK(in, out)
   /\ RefuseOK(A, in, out)
-  /\ out.err = 0 => ResultOK(A, in, out)
+  /\ out.err = 0 => ResultOK(A, D, in, out)
+ContractOK(in, out) ==
+  ContractOKWith(AncMap(in.g), DistMap(in.g, WantsOf(in.rounds)), in, out)
 
-(* The violation signature  negotiate/<clause>/<kind>/<feature class> of   *)
-(* an output that misses the contract (first failing clause, in the order  *)
-(* work, refuse, acks, closed, order, extra, tables).  Feature classes are *)
-(* facts of the scenario: for tables, whether a commit whose table is      *)
-(* missing is an ancestor of two or more wants.                            *)
+(* Violation signatures  negotiate/<clause>/<kind>[/<feature class>], one  *)
+(* per clause an output misses.  Feature classes are facts of the          *)
+(* scenario: for a missing table, whether a commit whose table is missing  *)
+(* is an ancestor of two or more wants; for the work bound, whether the    *)
+(* history has so many parent paths below the wants that walks which       *)
+(* follow every path (Part 3) can account for half the bound.              *)
 SharedByWants(A, in, c) ==
   Cardinality({w \in WantsOf(in.rounds) \cap KnownC(in) : c \in A[w]}) >= 2
-Sig(A, in, out) ==
-  LET D    == DistMap(in.g, WantsOf(in.rounds))
-      miss == {c \in (Sent(out) \cap KnownC(in)) \ Have(A, out) : InDepth(D, in.depth, c)} \ out.tabs
-  IN
-  IF ~WorkOK(in, out) THEN "negotiate/work/exponential"
-  ELSE IF ~RefuseOK(A, in, out) THEN
-         (IF out.err = 0 THEN "negotiate/refuse/missing" ELSE "negotiate/refuse/spurious")
-  ELSE IF out.err # 0 THEN "ok"
-  ELSE IF ~AcksOK(in, out) THEN "negotiate/acks/foreign"
-  ELSE IF ~Closed(A, in, out) THEN "negotiate/closed/missing-ancestor"
-  ELSE IF ~ParentFirst(A, in, out) THEN "negotiate/order/child-before-parent"
-  ELSE IF ~NoExtra(A, in, out) THEN "negotiate/extra/unreachable-from-wants"
-  ELSE IF ~TablesUpper(A, in, out) THEN "negotiate/tables/extra/beyond-depth"
-  ELSE IF ~TablesLower(A, in, out) THEN
-         (IF \E c \in miss : SharedByWants(A, in, c) THEN "negotiate/tables/missing/shared-by-wants"
-          ELSE "negotiate/tables/missing/single-want")
-  ELSE "ok"
+
+WorkClass(in, pathWork) ==
+  IF (Len(in.rounds) + 1) * pathWork > Poly(N(in)) \div 2 THEN "path-explosion" ELSE "other"
+WorkSig(in, pathWork) == "negotiate/work/exponential/" \o WorkClass(in, pathWork)
+
+ResultSigs(A, D, in, out) ==
+  LET W == WantsOf(in.rounds)
+      S == Sent(out)
+      H == Have(A, out)
+      M == TablesMissing(in, out.tabs, S, H, D)
+  IN (IF AcksOK(in, out) THEN {} ELSE {"negotiate/acks/foreign"})
+     \cup (IF Closed(A, in, W, S, H) THEN {} ELSE {"negotiate/closed/missing-ancestor"})
+     \cup (IF ParentFirst(in, out.list, H) THEN {} ELSE {"negotiate/order/child-before-parent"})
+     \cup (IF NoExtra(A, W, S) THEN {} ELSE {"negotiate/extra/unreachable-from-wants"})
+     \cup (IF TablesUpper(in, out.tabs, S, D) THEN {} ELSE {"negotiate/tables/extra/beyond-depth"})
+     \cup (IF M = {} THEN {}
+           ELSE IF \E c \in M : SharedByWants(A, in, c) THEN {"negotiate/tables/missing/shared-by-wants"}
+           ELSE {"negotiate/tables/missing/single-want"})
+
+(* pathWork: the fetches of walks from the wants that follow every parent  *)
+(* path (PathWork in Part 3); only names the class of a work violation     *)
+AllSigs(A, D, in, out, pathWork) ==
+       (IF WorkOK(in, out) THEN {} ELSE {WorkSig(in, pathWork)})
+  \cup (IF RefuseOK(A, in, out) THEN {}
+        ELSE IF out.err = 0 THEN {"negotiate/refuse/missing"} ELSE {"negotiate/refuse/spurious"})
+  \cup (IF out.err = 0 THEN ResultSigs(A, D, in, out) ELSE {})
 
 -----------------------------------------------------------------------------
 (* Part 2 - the design                                                     *)
@@ -304,9 +320,9 @@ Prios(W) ==
   ELSE {SetToSeq(W), [i \in 1..Cardinality(W) |-> SetToSeq(W)[Cardinality(W) + 1 - i]]}
 
 (* use (A): the design meets the contract on this input                    *)
-DesignOK(in) ==
-  LET A == AncMap(in.g) IN
-  \A prio \in Prios(WantsOf(in.rounds)) : ContractOK(A, in, DesignOut(in, A, prio, FALSE))
+DesignOKWith(A, D, in) ==
+  \A prio \in Prios(WantsOf(in.rounds)) : ContractOKWith(A, D, in, DesignOut(in, A, prio, FALSE))
+DesignOK(in) == DesignOKWith(AncMap(in.g), DistMap(in.g, WantsOf(in.rounds)), in)
 
 -----------------------------------------------------------------------------
 (* Part 3 - the code as written (named deviations)                         *)
@@ -320,11 +336,13 @@ DesignOK(in) ==
 (*   list holds as many entries); on a ladder of diamonds it doubles per   *)
 (*   level.                                                                *)
 
-CodedMissesTables(in) ==
-  LET A == AncMap(in.g) IN
-  \E prio \in Prios(WantsOf(in.rounds)) : ~TablesOK(A, in, DesignOut(in, A, prio, TRUE))
+CodedMissesTablesWith(A, D, in) ==
+  \E prio \in Prios(WantsOf(in.rounds)) :
+    LET out == DesignOut(in, A, prio, TRUE) IN
+    out.err = 0 /\ ~TablesOK(in, out.tabs, Sent(out), Have(A, out), D)
 
 Mult(s, x) == Cardinality({i \in 1..Len(s) : s[i] = x})
+SatAdd(a, b) == Min2(a + b, 100000000)          \* counts saturate (TLC integers are 32 bit)
 
 RECURSIVE PathsDown(_, _, _, _, _)
 PathsDown(g, stop, w, k, P) ==      \* P: function on (k+1)..n already filled
@@ -332,14 +350,22 @@ PathsDown(g, stop, w, k, P) ==      \* P: function on (k+1)..n already filled
   ELSE LET n == Len(g.p)
            RECURSIVE Sum(_)
            Sum(ds) == IF ds = {} THEN 0
-                      ELSE LET d == CHOOSE x \in ds : TRUE IN P[d] * Mult(g.p[d], k) + Sum(ds \ {d})
+                      ELSE LET d == CHOOSE x \in ds : TRUE
+                           IN SatAdd(Min2(P[d] * Mult(g.p[d], k), 100000000), Sum(ds \ {d}))
            v == IF k \in stop THEN 0
-                ELSE (IF k = w THEN 1 ELSE 0) + Sum({d \in (k + 1)..n : k \in Par(g, d)})
+                ELSE SatAdd(IF k = w THEN 1 ELSE 0, Sum({d \in (k + 1)..n : k \in Par(g, d)}))
        IN PathsDown(g, stop, w, k - 1, [c \in k..n |-> IF c = k THEN v ELSE P[c]])
 
-CodedVisits(g, stop, w) ==
+CodedVisits(g, stop, w) ==     \* saturating
   LET P == PathsDown(g, stop, w, Len(g.p), <<>>)
       RECURSIVE Tot(_)
-      Tot(k) == IF k = 0 THEN 0 ELSE P[k] + Tot(k - 1)
+      Tot(k) == IF k = 0 THEN 0 ELSE SatAdd(P[k], Tot(k - 1))
   IN Tot(Len(g.p))
+
+(* fetches of one walk per want with no stop at all (saturating)           *)
+PathWork(g, W) ==
+  LET RECURSIVE F(_)
+      F(T) == IF T = {} THEN 0
+              ELSE LET w == CHOOSE x \in T : TRUE IN SatAdd(CodedVisits(g, {}, w), F(T \ {w}))
+  IN F(W \cap Commits(g))
 =============================================================================
